@@ -1,26 +1,24 @@
-# Registry of checks: property id -> how to build and run its harness.
-SYNC = {"sync": "filippo.io/sunlight/internal/verifmc/vsync"}
+# Registry of checks: /verif/checks.d/<ID>.json -> how to build and run the property's harness.
+import glob, json, os
 
+SYNC = {"sync": "filippo.io/sunlight/internal/verifmc/vsync"}
 # crawshaw.io/sqlite -> registering shim: LoadLog leaks its cache connections when it fails after initCache
 # (the real process exits; the harness keeps running and crawshaw's finalizer would panic).
 SQLITE = {"crawshaw.io/sqlite": "filippo.io/sunlight/internal/verifmc/vsqlite"}
 # compress/gzip -> byte-identical shim that recycles deflate state (performance only)
 GZIP = {"compress/gzip": "filippo.io/sunlight/internal/verifmc/vgzip"}
-CTLOG_REWRITE = {"internal/ctlog/ctlog.go": {**SYNC, **SQLITE, **GZIP}, "internal/ctlog/sqlite.go": {**SYNC, **SQLITE},
-                 "internal/ctlog/cache.go": SQLITE}
 
-def ctlog(test, rule, quick_budget=100, thorough_budget=1500, **kw):
-    d = {"pkg": "internal/ctlog", "test": test, "rewrite": CTLOG_REWRITE, "rule": rule,
-         "quick": {"budget_s": quick_budget, "hard_timeout_s": quick_budget * 3 + 300},
-         "thorough": {"budget_s": thorough_budget, "hard_timeout_s": thorough_budget * 2 + 600},
-         "level": "model_checking"}
-    d.update(kw)
-    return d
-
-CHECKS = {
-    "C01": ctlog("TestVerifC01",
-                 "stateless DFS with replay over the real ctlog.Log under the synctest scheduler: every placement of <=D deviations "
-                 "(storage/lock faults applied or not, crashes, clock anomalies, preemptions) over all scheduling points of sequencing "
-                 "and recovery; a state is a distinct canonical state key (stores, thread positions and observation histories, mutex "
-                 "acquisition chains, clock, monitor history); a transition is one scheduler step"),
+PRESETS = {
+    "ctlog": {"internal/ctlog/ctlog.go": {**SYNC, **SQLITE, **GZIP}, "internal/ctlog/sqlite.go": {**SYNC, **SQLITE},
+              "internal/ctlog/cache.go": SQLITE},
+    "witness": {"internal/witness/witness.go": SYNC,
+                "internal/ctlog/ctlog.go": {**SYNC, **SQLITE, **GZIP}, "internal/ctlog/sqlite.go": {**SYNC, **SQLITE},
+                "internal/ctlog/cache.go": SQLITE},
 }
+
+CHECKS = {}
+for f in sorted(glob.glob(os.path.join(os.path.dirname(os.path.abspath(__file__)), "..", "checks.d", "*.json"))):
+    spec = json.load(open(f))
+    if "rewrite_preset" in spec:
+        spec["rewrite"] = {**PRESETS[spec["rewrite_preset"]], **spec.get("rewrite", {})}
+    CHECKS[os.path.basename(f)[:-5]] = spec
